@@ -12,6 +12,8 @@ unclaimed = {}
 up = os.path.join(V, "manifest", "unclaimed.json")
 if os.path.exists(up):
     unclaimed = json.load(open(up))
+enabled = json.load(open(os.path.join(V, "manifest", "enabled.json")))
+frags = {k: v for k, v in frags.items() if k in enabled}   # only checks confirmed to exit 0 on /repo as committed
 checks = []
 for pid in props:
     if pid not in frags:
